@@ -14,8 +14,10 @@ package handler
 // depend on it: every admitted request reports exactly once.
 
 import (
+	"bufio"
 	"context"
 	"fmt"
+	"net"
 	"net/http"
 	"net/http/httptest"
 	"reflect"
@@ -37,7 +39,7 @@ func init() { logx.Disable() }
 
 type c09hReq struct {
 	Admit  bool        `json:"a"`
-	Beh    string      `json:"b"`               // codes | write | none | panic | cancel | timeout (legacy: 200 | 503 | 500)
+	Beh    string      `json:"b"`               // codes | write | none | panic | cancel | timeout | hijack | flush (legacy: 200 | 503 | 500)
 	Codes  []int       `json:"codes,omitempty"` // codes: the WriteHeader calls of the wrapped handler, in order
 	Guard  bool        `json:"guard,omitempty"` // real chain order: shedder -> TimeoutHandler -> handler
 	Method string      `json:"m,omitempty"`
@@ -49,6 +51,7 @@ type c09hReq struct {
 
 type c09hCase struct {
 	Real bool      `json:"real,omitempty"` // real adaptive shedder behind the counting wrapper
+	Nil  bool      `json:"nil,omitempty"`  // no shedder at all: what the api engine passes when Config.CpuThreshold <= 0
 	Reqs []c09hReq `json:"reqs"`
 }
 
@@ -130,6 +133,20 @@ func (s *c09hShedder) Allow() (load.Promise, error) {
 	return s.last, nil
 }
 
+// c09hRecorder: a recorder whose connection can be taken over (websocket / raw
+// streaming handlers), like the ResponseWriter of a real HTTP/1 server.
+type c09hRecorder struct {
+	*httptest.ResponseRecorder
+	hijacked int
+}
+
+func (r *c09hRecorder) Hijack() (net.Conn, *bufio.ReadWriter, error) {
+	r.hijacked++
+	srv, cli := net.Pipe()
+	_ = cli.Close()
+	return srv, bufio.NewReadWriter(bufio.NewReader(srv), bufio.NewWriter(srv)), nil
+}
+
 // c09hFlying reads the unexported in-flight counter of a real adaptive shedder.
 func c09hFlying(s load.Shedder) (int64, bool) {
 	rv := reflect.ValueOf(s)
@@ -177,6 +194,9 @@ func c09hRequest(rq c09hReq) *http.Request {
 
 func c09hInterp(c c09hCase) (v kit.Verdict) {
 	sh := &c09hShedder{}
+	if c.Nil {
+		return c09hNilInterp(c)
+	}
 	if c.Real {
 		sh.real = load.NewAdaptiveShedder()
 		if _, ok := c09hFlying(sh.real); !ok {
@@ -204,6 +224,20 @@ func c09hInterp(c c09hCase) (v kit.Verdict) {
 			}
 		case "write":
 			_, _ = w.Write([]byte("x"))
+		case "hijack":
+			// a websocket-style handler takes the connection over and answers on it itself
+			if hj, ok := w.(http.Hijacker); ok {
+				if conn, _, err := hj.Hijack(); err == nil && conn != nil {
+					_ = conn.Close()
+				}
+			}
+		case "flush":
+			// a streaming (SSE) handler: flush, write, flush
+			if fl, ok := w.(http.Flusher); ok {
+				fl.Flush()
+				_, _ = w.Write([]byte("data: x\n\n"))
+				fl.Flush()
+			}
 		case "panic":
 			panic("c09 handler panic")
 		case "cancel", "timeout":
@@ -222,7 +256,7 @@ func c09hInterp(c c09hCase) (v kit.Verdict) {
 		sh.admit, sh.last, sh.calls = rq.Admit, nil, 0
 		nextCalls.Store(0)
 		cur, started = rq, make(chan struct{})
-		rec := httptest.NewRecorder()
+		rec := &c09hRecorder{ResponseRecorder: httptest.NewRecorder()}
 		req := c09hRequest(rq)
 		h, guarded := hPlain, false
 		switch {
@@ -283,6 +317,12 @@ func c09hInterp(c c09hCase) (v kit.Verdict) {
 			}
 		}
 		v.Classes = append(v.Classes, "beh-"+rq.Beh)
+		if rec.hijacked > 0 {
+			v.Classes = append(v.Classes, "connection-hijacked")
+		}
+		if rec.Flushed {
+			v.Classes = append(v.Classes, "response-flushed")
+		}
 		if guarded {
 			v.Classes = append(v.Classes, "chain-shedder-timeoutguard-handler")
 		}
@@ -310,10 +350,61 @@ func c09hInterp(c c09hCase) (v kit.Verdict) {
 	return v
 }
 
+// No shedder configured (api engine with Config.CpuThreshold <= 0 hands nil to
+// SheddingHandler): nothing can have observed an overload, so by the first shedder
+// clause no request may be rejected: every request reaches the wrapped handler exactly
+// once and the middleware itself answers nothing (a 503 can only be the handler's own).
+func c09hNilInterp(c c09hCase) (v kit.Verdict) {
+	var nextCalls atomic.Int32
+	var cur c09hReq
+	next := http.HandlerFunc(func(w http.ResponseWriter, r *http.Request) {
+		nextCalls.Add(1)
+		switch cur.Beh {
+		case "codes":
+			for _, code := range cur.Codes {
+				w.WriteHeader(code)
+			}
+		case "write":
+			_, _ = w.Write([]byte("x"))
+		case "panic":
+			panic("c09 handler panic")
+		}
+	})
+	var built http.Handler
+	if p := func() (p any) {
+		defer func() { p = recover() }()
+		built = SheddingHandler(nil, c09Metrics)(next)
+		return nil
+	}(); p != nil {
+		return v.Failf("SheddingHandler(nil shedder) panicked while being installed: %v", p)
+	}
+	for i, rq := range c.Reqs {
+		nextCalls.Store(0)
+		cur = rq
+		rec := httptest.NewRecorder()
+		var pv any
+		func() {
+			defer func() { pv = recover() }()
+			built.ServeHTTP(rec, c09hRequest(rq))
+		}()
+		what := fmt.Sprintf("request %d %+v without a shedder (shedding not configured)", i, rq)
+		if pv != nil && !(rq.Beh == "panic" || rq.Beh == "codes") {
+			return v.Failf("%s: panicked: %v", what, pv)
+		}
+		if n := nextCalls.Load(); n != 1 {
+			return v.Failf("%s: the wrapped handler ran %d times, status %d: a request was rejected although no overload can have been observed", what, n, rec.Code)
+		}
+		v.Classes = append(v.Classes, "nil-shedder-beh-"+rq.Beh)
+	}
+	v.Classes = append(v.Classes, "nil-shedder")
+	v.NonTrivial = len(c.Reqs) > 1
+	return v
+}
+
 func c09hGenReq(rt *rapid.T) c09hReq {
 	rq := c09hReq{
 		Admit:  rapid.IntRange(0, 3).Draw(rt, "a") > 0,
-		Beh:    rapid.SampledFrom([]string{"codes", "codes", "codes", "codes", "codes", "write", "none", "panic", "cancel", "timeout"}).Draw(rt, "b"),
+		Beh:    rapid.SampledFrom([]string{"codes", "codes", "codes", "codes", "codes", "write", "none", "panic", "cancel", "timeout", "hijack", "flush"}).Draw(rt, "b"),
 		Guard:  rapid.IntRange(0, 2).Draw(rt, "guard") == 0,
 		Method: rapid.SampledFrom([]string{"GET", "GET", "POST", "PUT", "DELETE", "HEAD", "OPTIONS", "PATCH", "CONNECT", "TRACE"}).Draw(rt, "m"),
 		Proto:  rapid.SampledFrom([]string{"1.1", "1.1", "1.0", "2"}).Draw(rt, "pr"),
@@ -340,6 +431,7 @@ func TestVerif_C09_shedding_handler(t *testing.T) {
 	kit.Run(t, "C09", "handler-reports-once", kit.Opts{Quick: 1500, Thorough: 48000},
 		func(rt *rapid.T) c09hCase {
 			c := c09hCase{Real: rapid.IntRange(0, 3).Draw(rt, "real") == 0}
+			c.Nil = !c.Real && rapid.IntRange(0, 9).Draw(rt, "nil") == 0
 			n := rapid.IntRange(1, 12).Draw(rt, "n")
 			for i := 0; i < n; i++ {
 				c.Reqs = append(c.Reqs, c09hGenReq(rt))
